@@ -8,12 +8,16 @@ from pyvc.dsl import *
 default_scope(["Container"])
 
 model("Event", module="usim.py.events",
-      fields={"env": ANY, "callbacks": LIST(ANY), "_value": ANY, "defused": BOOL},
+      fields={"env": REF("Environment"), "callbacks": LIST(ANY), "_value": ANY, "defused": BOOL},
       ghost={"fired": BOOL, "val": ANY})
 model("BaseRequest", module="usim.py.resources.base", fields={"resource": REF("BaseResource"), "proc": ANY})
+# (a request belongs to the resource it was created for: `resource` is written by BaseRequest.__init__ only)
 model("Put", module="usim.py.resources.base", fields={})
 model("Get", module="usim.py.resources.base", fields={})
-model("Environment", module="usim.py.core", fields={})
+class_typed_sequence("BaseResource", "put_queue", "PutQueue")
+class_typed_sequence("BaseResource", "get_queue", "GetQueue")
+disjoint_classes("Put", "Get", "a request is either a put or a get; true of every class in the repository")
+model("Environment", module="usim.py.core", fields={"active_process": ANY})
 contract("usim.py.core.Environment.now", assumed=True, pure=True,
          params={"self": REF("Environment")}, returns=REAL, ensures=[], modifies=[], no_invariants=True,
          note="assumed: Environment.now reads the clock of the running simulation and changes nothing")
@@ -174,21 +178,28 @@ def DISTINCT(q):
             % (q, q, q))
 
 
-invariant("BaseResource", "pending_puts_not_granted", NOT_FIRED("put_queue"), props=["C19"])
-invariant("BaseResource", "pending_gets_not_granted", NOT_FIRED("get_queue"), props=["C19"])
+def BELONG(q):
+    return "forall(int, lambda i: implies(0 <= i and i < len(self.%s), self.%s[i].resource is self))" % (q, q)
+
+
+def TYPED(q):
+    k = "Put" if q == "put_queue" else "Get"
+    return ("forall(int, lambda i: implies(0 <= i and i < len(self.%s), "
+            "implies(isinstance(self, Container), isinstance(self.%s[i], Container%s) and cast(self.%s[i], Container%s).amount > 0) and "
+            "implies(isinstance(self, Store), isinstance(self.%s[i], Store%s)) and "
+            "implies(isinstance(self, Resource), isinstance(self.%s[i], %s))))"
+            % (q, q, k, q, k, q, k, q, "Request" if k == "Put" else "Release"))
+
+
+invariant("BaseResource", "pending_puts_belong", BELONG("put_queue"), props=["C19"])
+invariant("BaseResource", "pending_gets_belong", BELONG("get_queue"), props=["C19"])
+invariant("BaseResource", "pending_puts_typed", TYPED("put_queue"), props=["C19"])
+invariant("BaseResource", "pending_gets_typed", TYPED("get_queue"), props=["C19"])
+# "a queued request has not been granted" is a protocol fact of each resource that is passed explicitly (requires/ensures of
+# the queue operations below) instead of being a class invariant: as an invariant it would have to be re-proved for every
+# OTHER resource whenever some event fires, and z3 does not get through that frame argument within the budget
 invariant("BaseResource", "pending_puts_distinct", DISTINCT("put_queue"), props=["C19"])
 invariant("BaseResource", "pending_gets_distinct", DISTINCT("get_queue"), props=["C19"])
-invariant("Container", "pending_amounts_positive",
-          "forall(int, lambda i: implies(0 <= i and i < len(self.put_queue), isinstance(self.put_queue[i], ContainerPut) and cast(self.put_queue[i], ContainerPut).amount > 0)) and "
-          "forall(int, lambda i: implies(0 <= i and i < len(self.get_queue), isinstance(self.get_queue[i], ContainerGet) and cast(self.get_queue[i], ContainerGet).amount > 0))",
-          props=["C19"])
-invariant("Store", "pending_are_store_requests",
-          "forall(int, lambda i: implies(0 <= i and i < len(self.put_queue), isinstance(self.put_queue[i], StorePut))) and "
-          "forall(int, lambda i: implies(0 <= i and i < len(self.get_queue), isinstance(self.get_queue[i], StoreGet)))", props=["C19"])
-invariant("Resource", "pending_are_requests",
-          "forall(int, lambda i: implies(0 <= i and i < len(self.put_queue), isinstance(self.put_queue[i], Request))) and "
-          "forall(int, lambda i: implies(0 <= i and i < len(self.get_queue), isinstance(self.get_queue[i], Release)))", props=["C19"])
-
 KINDS = ("(isinstance(self, Container) or (isinstance(self, Store) and not isinstance(self, PriorityStore) and not isinstance(self, FilterStore)) "
          "or (isinstance(self, Resource) and not isinstance(self, PreemptiveResource)))")
 CONTENT_SCOPE = ["Container", "Store", "Resource"]      # hold at every step of the serving loop
@@ -200,25 +211,25 @@ def _trigger(q, can, other, kind):
     return dict(
         # the queue holds distinct, not yet granted requests (class invariant of BaseResource, which the callers have in scope;
         # it does NOT hold inside the serving loop, where granted requests are still queued, so it is passed explicitly)
-        requires=[KINDS, NOT_FIRED(q), DISTINCT(q)],
+        requires=[KINDS, NOT_FIRED(q), DISTINCT(q), BELONG(q), TYPED(q)],
         ensures=[
             # exactly a PREFIX of the queue (in queue order) was granted and left the queue; the rest is still pending, in order
             "len(self.%s) <= len(old(self.%s))" % (q, q),
             "self.%s == old(self.%s)[%s:]" % (q, q, n),
             "forall(int, lambda i: implies(0 <= i and i < %s, old(self.%s)[i].fired))" % (n, q),
-            NOT_FIRED(q), DISTINCT(q),
+            NOT_FIRED(q), DISTINCT(q), BELONG(q), TYPED(q),
             # nothing grantable is left waiting at the head
             "implies(len(self.%s) > 0, not %s(self, self.%s[0]))" % (q, can, q),
             "self.%s == old(self.%s)" % (other, other),
             # only requests of this kind (puts resp. gets) are touched, and granted stays granted
-            "forall(Event, lambda e: implies(not fresh_obj(e) and not isinstance(e, %s), e.fired == old(e.fired)))" % kind,
+            "forall(Event, lambda e: implies(not fresh_obj(e) and not (isinstance(e, %s) and cast(e, BaseRequest).resource is self), e.fired == old(e.fired)))" % kind,
             ],
         loop_invariants={"takewhile#1": [
             "self.%s == old(self.%s)" % (q, q), "self.%s == old(self.%s)" % (other, other),
             "len(_res) == _i",
             "forall(int, lambda j: implies(0 <= j and j < _i, _iter[j].fired))",
             "forall(int, lambda j: implies(_i <= j and j < len(_iter), not _iter[j].fired))",
-            "forall(Event, lambda e: implies(not fresh_obj(e) and not isinstance(e, %s), e.fired == old(e.fired)))" % kind,
+            "forall(Event, lambda e: implies(not fresh_obj(e) and not (isinstance(e, %s) and cast(e, BaseRequest).resource is self), e.fired == old(e.fired)))" % kind,
                         'unchanged_except("Container._level", self)', 'unchanged_except("Container.sum_in", self)',
             'unchanged_except("Container.sum_out", self)', 'unchanged_except("Store._items", self)',
             'unchanged_except("Resource.users", self)']},
@@ -231,3 +242,80 @@ contract("usim.py.resources.base.BaseResource._trigger_put",
          params={"self": REF("BaseResource"), "get_event": OPT(REF("Get"))}, **_trigger("put_queue", "can_put", "get_queue", "Put"))
 contract("usim.py.resources.base.BaseResource._trigger_get",
          params={"self": REF("BaseResource"), "put_event": OPT(REF("Put"))}, **_trigger("get_queue", "can_get", "put_queue", "Get"))
+
+
+# ---------------------------------------------------------------------------------------------- requests: creation and cancellation
+contract("usim.py.events.Event.__init__", assumed=True,
+         params={"self": REF("Event"), "env": REF("Environment")},
+         ensures=["not self.fired", "self.env is env", "len(self.callbacks) == 0"],
+         modifies=["Event.fired@self", "Event.val@self", "Event._value@self", "Event.env@self", "Event.callbacks@self", "Event.defused@self"],
+         no_invariants=True,
+         note="assumed: a new Event is not triggered and has no callbacks (usim.py.events is not under contract)")
+
+contract("usim.py.resources.base.BaseRequest.__init__",
+         params={"self": REF("BaseRequest"), "resource": REF("BaseResource")},
+         ensures=["not self.fired", "self.resource is resource", "len(self.callbacks) == 0"],
+         modifies=["Event.fired@self", "Event.val@self", "Event._value@self", "Event.env@self", "Event.callbacks@self", "Event.defused@self",
+                   "BaseRequest.resource@self", "BaseRequest.proc@self"],
+         no_invariants=True, props=["C19"])
+
+
+def RKINDS(r):
+    return KINDS.replace("self", r)
+
+
+def _request_init(q, other, trig, kind, req_kinds, inverse):
+    n = "(len(old(resource.%s)) + 1 - len(resource.%s))" % (q, q)
+    R = lambda t: t.replace("self.", "resource.")      # noqa: E731
+    return dict(
+        requires=[RKINDS("resource"), R(NOT_FIRED(q)), R(NOT_FIRED(other))] + req_kinds,
+        ensures=[
+            R(NOT_FIRED(q)), R(NOT_FIRED(other)),
+            # the new request joins the END of the queue; then exactly a prefix of the queue is granted (request order) ...
+            "len(resource.%s) <= len(old(resource.%s)) + 1" % (q, q),
+            "resource.%s == (old(resource.%s) + [self])[%s:]" % (q, q, n),
+            "forall(int, lambda i: implies(0 <= i and i < %s and i < len(old(resource.%s)), old(resource.%s)[i].fired))" % (n, q, q),
+            "self.fired == (len(resource.%s) == 0 or resource.%s[len(resource.%s) - 1] is not self)" % (q, q, q),
+            # ... and no grantable request is left at the head (granted within the step)
+            "implies(len(resource.%s) > 0, not %s(resource, resource.%s[0]))" % (q, "can_put" if kind == "Put" else "can_get", q),
+            "resource.%s == old(resource.%s)" % (other, other),
+            "self.resource is resource",
+            # the inverse trigger runs when this request is processed, whenever that is (a completed put can serve a waiting get)
+            "len(self.callbacks) == 1 and self.callbacks[0] is bound_method('%s', resource)" % inverse],
+        modifies=["Event.fired", "Event.val", "Event._value", "Event.env@self", "Event.callbacks@self", "Event.defused@self",
+                  "BaseRequest.resource@self", "BaseRequest.proc@self", "BaseResource.%s@resource" % q,
+                  "Container._level@resource", "Container.sum_in@resource", "Container.sum_out@resource", "Store._items@resource",
+                  "Resource.users@resource", "Request.usage_since"],
+        inv_scope=ALL_SCOPE, props=["C19"])
+
+
+contract("usim.py.resources.base.Put.__init__",
+         params={"self": REF("Put"), "resource": REF("BaseResource")},
+         **_request_init("put_queue", "get_queue", "_trigger_put", "Put", [
+             "implies(isinstance(resource, Container), isinstance(self, ContainerPut) and cast(self, ContainerPut).amount > 0)",
+             "implies(isinstance(resource, Store), isinstance(self, StorePut))",
+             "implies(isinstance(resource, Resource), isinstance(self, Request))"], "_trigger_get"))
+contract("usim.py.resources.base.Get.__init__",
+         params={"self": REF("Get"), "resource": REF("BaseResource")},
+         **_request_init("get_queue", "put_queue", "_trigger_get", "Get", [
+             "implies(isinstance(resource, Container), isinstance(self, ContainerGet) and cast(self, ContainerGet).amount > 0)",
+             "implies(isinstance(resource, Store), isinstance(self, StoreGet))",
+             "implies(isinstance(resource, Resource), isinstance(self, Release))"], "_trigger_put"))
+
+
+def _cancel(q):
+    inq = "exists(int, lambda i: 0 <= i and i < len(old(self.resource.%s)) and old(self.resource.%s)[i] is self)" % (q, q)
+    return dict(
+        requires=[],
+        ensures=[
+            # cancelling is idempotent: a granted request, or one that is not queued (any more), changes nothing ...
+            "implies(old(self.fired) or not %s, self.resource.%s == old(self.resource.%s))" % (inq, q, q),
+            # ... a pending one leaves the queue, everything else keeps its place
+            "implies(not old(self.fired) and %s, exists(int, lambda k: 0 <= k and k < len(old(self.resource.%s)) "
+            "and old(self.resource.%s)[k] is self and forall(int, lambda j: implies(0 <= j and j < k, old(self.resource.%s)[j] is not self)) "
+            "and self.resource.%s == old(self.resource.%s)[:k] + old(self.resource.%s)[k + 1:]))" % (inq, q, q, q, q, q, q)],
+        modifies=["BaseResource.%s@self.resource" % q], no_invariants=True, props=["C19"])
+
+
+contract("usim.py.resources.base.Put.cancel", params={"self": REF("Put")}, **_cancel("put_queue"))
+contract("usim.py.resources.base.Get.cancel", params={"self": REF("Get")}, **_cancel("get_queue"))
